@@ -91,3 +91,24 @@ static void op_preferred (int n, char **tok)
   if (!p) printf ("NULL"); else puthex ((const unsigned char *)p, strlen (p));
   printf ("\n");
 }
+
+/* KE <prefix> : crypt_checksalt on prefix+b for every byte b in 1..255
+   -> n0=<#OK> n1=<#INVALID> n3=<#LEGACY> nx=<#other> h=<sum b*(status+1) mod 2^32> */
+static void op_checksalt_enum (int n, char **tok)
+{
+  if (n < 2) { printf ("bad-op\n"); return; }
+  int isn; size_t l; unsigned char *s0 = unhex (tok[1], &l, &isn);
+  char *s = malloc (l + 2);
+  if (l) memcpy (s, s0, l);
+  s[l + 1] = 0;
+  unsigned long c0 = 0, c1 = 0, c3 = 0, cx = 0; uint32_t h = 0;
+  for (int b = 1; b < 256; b++)
+    {
+      s[l] = (char)b;
+      int st = crypt_checksalt (s);
+      if (st == 0) c0++; else if (st == 1) c1++; else if (st == 3) c3++; else cx++;
+      h += (uint32_t)b * (uint32_t)(st + 1);
+    }
+  printf ("n0=%lu n1=%lu n3=%lu nx=%lu h=%u\n", c0, c1, c3, cx, h);
+  free (s); free (s0);
+}
